@@ -5,9 +5,9 @@
 # the given quick checks against the patched worktree.  Leaves the worktree clean.
 ID="$1"; V="$2"; shift 2
 PROPS="${*:-$ID}"
-WT="/tmp/wt_$ID"; S="$WT/_seeded/$V"
+WT="/tmp/${WTPREFIX:-wt}_$ID"; S="$WT/_seeded/$V"
 VERIF="$(cd "$(dirname "$0")/.." && pwd)"
-NAME="seed_${ID}_$V"
+NAME="seed${ROUND:-}_${ID}_$V"
 git -C "$WT" checkout -q -- . 
 D0=$(cd "$WT" && PYTHONPATH="$WT" timeout 600 /venv/bin/python "$S/demo.py" >/dev/null 2>&1; echo $?)
 if ! git -C "$WT" apply "$S/patch.diff"; then echo "$NAME: PATCH DOES NOT APPLY"; exit 3; fi
